@@ -110,6 +110,8 @@ def parse_type(s):
             return Ty('tuple', args)
         if name in _SORT_NAMES:
             return Ty('sort', (), name)
+        if name in ('Vec2', 'Vec3', 'Vec4'):
+            return Ty('tuple', [REAL] * int(name[3]), 'Vec')
         if name in _VALUE_CLASSES:
             return _VALUE_CLASSES[name]
         if name in _OBJ_NAMES:
@@ -227,6 +229,10 @@ class TupV:
 
     @property
     def t(self):
+        if self.cls == 'BVec':
+            return Ty('tuple', [BOOL] * len(self.items), 'BVec')
+        if self.cls in ('Vec', 'Mat'):
+            return Ty('tuple', [type_of(x) if self.cls == 'Mat' else REAL for x in self.items], self.cls)
         if self.cls is not None:
             return _VALUE_CLASSES[self.cls]
         return Ty('tuple', [type_of(x) for x in self.items])
